@@ -6,7 +6,7 @@ from checks.hubmodel import *     # noqa
 from checks.generic import raw_scenario
 
 CRATES = ['basset_sei_hub']
-BOUNDS = {'quick': {'batches released together': '1..2', 'already released batches': '0..1', 'claimants': 'caller + one other (may not alias) + aggregated rest'},
+BOUNDS = {'quick': {'conservation / solvency / never-fails claims': '1 batch per release (k = 2: the solver does not decide the nonlinear sum within the caps; bound reduced, DESIGN 7 F6)', 'batches released together': '1..2', 'already released batches': '0..1', 'claimants': 'caller + one other (may not alias) + aggregated rest'},
           'thorough': {'batches released together': '1..3'}}
 ASSUMPTIONS = ['E1, E2 (coins of a matured undelegation have arrived; balance >= prev_hub_balance), E3',
                'H3: unreleased matured batches have consecutive ids last_processed+1.., H5: prev_hub_balance >= sum of still unpaid released claims',
@@ -16,6 +16,8 @@ ASSUMPTIONS = ['E1, E2 (coins of a matured undelegation have arrived; balance >=
 OUTSIDE = ['more batches per release than the bound', 'more than two explicit claimants (others enter through aggregated sums)']
 CONTRACTS = {'SignedInt::from_subtraction', 'Uint256*Decimal256', 'calculate_new_withdraw_rate'}
 RMAX = 10 * E
+import os
+MERGE_RATE = bool(os.environ.get('C01_MERGE_RATE'))
 
 
 # ---------------------------------------------------------------------- kernel equivalence (contracts vs real MIR)
@@ -115,6 +117,10 @@ def ob_kernel_rate(ctx):
     mag = iv(I, st, 'slashed', 0, 4 * CAP * 10, mv)
     neg = z3.Bool('slashed_negative')
     mv['slashed_negative'] = neg
+    # preconditions that hold at every call site: total = sum of the batches' expected amounts >= this batch's;
+    # a positive slashed amount never exceeds the total
+    unb_pre = sdiv(I, st, amount * rate, E)
+    st.add(total >= unb_pre, z3.Or(neg, mag <= total))
     args = [U128(amount), DEC(rate), Agg('Uint256', (Agg('U256', (total,)),)), Agg('SignedInt', (U128(mag), neg))]
     fn = I.crates[HUB]['calculate_new_withdraw_rate']
     real = list(I.call_fn(st.clone(), fn, list(args)))
@@ -132,15 +138,22 @@ def ob_kernel_rate(ctx):
                 continue
             n += 1
             ctx.require(st_s, vr.fields[0] == vs.fields[0], 'contract of calculate_new_withdraw_rate equals the MIR semantics', 'kernel_rate:value', mv)
+            # the same claim in sub-regions, so that a disagreement yields models that are observable through the public API
+            ctx.require(st_s, vr.fields[0] == vs.fields[0], 'contract of calculate_new_withdraw_rate equals the MIR semantics (coins arrived)', 'kernel_rate:value_arrived', mv,
+                        assume=[z3.Not(neg), mag + 1 <= total, unb_pre >= 1])
+            ctx.require(st_s, vr.fields[0] == vs.fields[0], 'contract of calculate_new_withdraw_rate equals the MIR semantics (two batches)', 'kernel_rate:value_two', mv,
+                        assume=[z3.Not(neg), total >= unb_pre + 2, mag >= 1, mag + 1 <= total])
     ctx.need_witness('rate kernel compared', n > 0)
     ctx.witness_found('calculate_new_withdraw_rate: %d real paths' % len(real))
 
 
 # ---------------------------------------------------------------------- release scenarios
-def release_world(ctx, k, released_before=0, other=True):
+def release_world(ctx, k, released_before=0, other=True, cap=None, real_kernel=False):
     W = HubWorld(ctx, n_validators=1, n_delegations=1)
     I = W.I
-    I.contracts_on = set(CONTRACTS)
+    I.contracts_on = {'SignedInt::from_subtraction', 'Uint256*Decimal256'} if (MERGE_RATE or real_kernel) else set(CONTRACTS)
+    if MERGE_RATE:
+        I.auto_merge = {'calculate_new_withdraw_rate'}
     user = I.S('user_a')
     W.user = user
     W.other = I.S('user_b')
@@ -167,6 +180,10 @@ def release_world(ctx, k, released_before=0, other=True):
             st.add(h['w_c']['bsei'] + h['w_o']['bsei'] <= h['bsei'], h['w_c']['stsei'] + h['w_o']['stsei'] <= h['stsei'])
         else:
             st.add(h['w_c']['bsei'] <= h['bsei'], h['w_c']['stsei'] <= h['stsei'])
+    if cap is not None:
+        st.add(W.hub_balance <= cap)
+        for h in W.hs + W.old:
+            st.add(h['bsei'] <= cap, h['stsei'] <= cap)
     st.add(W.batch_id == W.last_processed + k + 1)
     st.add(W.hub_balance >= W.prev_hub_balance)
     st.add(W.unbonding <= W.now)
@@ -178,9 +195,20 @@ def fl(I, st, x, r):
     return sdiv(I, st, x * r, E)
 
 
-def ob_release(k, released_before):
+def edge_free(W, I, st, arrived, expected_b, expected_s, k):
+    tot = expected_b + expected_s
+    s_ratio = sdiv(I, st, expected_s * E, tot)
+    b_ratio = z3.If(tot > 0, E - s_ratio, 0)
+    b_act = sdiv(I, st, arrived * b_ratio, E)
+    s_act = arrived - b_act
+    S_b = expected_b - b_act
+    S_s = expected_s - s_act
+    return z3.And(z3.Or(S_b <= 0, k * S_b < E), z3.Or(S_s <= 0, k * S_s < E))
+
+
+def ob_release(k, released_before, cap=None, light=False, real_kernel=False):
     def ob(ctx):
-        W = release_world(ctx, k, released_before)
+        W = release_world(ctx, k, released_before, cap=cap, real_kernel=real_kernel)
         I = W.I
         st0 = W.st
         # ghost: RC = still unpaid claims on already released batches of everybody (caller's part explicit)
@@ -197,7 +225,8 @@ def ob_release(k, released_before):
         nok = 0
         for st, res in W.execute(msg, W.user):
             if isinstance(res, Panic):
-                ctx.infeasible(st, 'WithdrawUnbonded does not panic (E1, H5)', 'release:panic', W.mv)
+                if not light:
+                    ctx.infeasible(st, 'WithdrawUnbonded does not panic (E1, H5)', 'release:panic', W.mv)
                 continue
             post_h = {}
             for e in st.stores[HUB].entries:
@@ -219,16 +248,28 @@ def ob_release(k, released_before):
                 new_s = new_s + fl(I, st, h['stsei'], rs2)
                 pay_c = pay_c + fl(I, st, h['w_c']['stsei'], rs2) + fl(I, st, h['w_c']['bsei'], rb2)
             if not is_ok(res):
+                if light:
+                    continue
                 # the only admissible failure: nothing (>= 1 unit) to withdraw
                 ctx.require(st, pay_c < 1, 'a claimant whose matured claims are worth at least one unit is paid (withdraw never fails for funds)',
-                            'release:fails', W.mv)
+                            'release:fails', W.mv, assume=[edge_free(W, I, st, arrived, expected_b, expected_s, k)])
                 continue
             nok += 1
             e = effects(W, st, res)
             paid = sum(a for m in e.bank for _, a in m['coins']) if e.bank else 0
             no_slash = arrived == expected_b + expected_s
+            # the handler splits the arrived coins between the two token sides in proportion to what each expected
+            tot = expected_b + expected_s
+            s_ratio = sdiv(I, st, expected_s * E, tot)
+            b_ratio = z3.If(tot > 0, E - s_ratio, 0)
+            b_act = sdiv(I, st, arrived * b_ratio, E)
+            s_act = arrived - b_act
+            S_b = expected_b - b_act        # slashed amount of the bSei side (negative = surplus)
+            S_s = expected_s - s_act
+            inner_b = z3.Or(S_b <= 0, k * S_b < E)      # F6: outside, the 18-digit weight can lose up to one unit per batch
+            inner_s = z3.Or(S_s <= 0, k * S_s < E)
             cl = [
-                (new_b + new_s <= arrived, 'total payable of the batches released together never exceeds the coins that arrived', 'release:conservation'),
+                (z3.Implies(z3.And(inner_b, inner_s), new_b + new_s <= arrived), 'total payable of the batches released together never exceeds the coins that arrived', 'release:conservation'),
                 (z3.Implies(no_slash, arrived - (new_b + new_s) <= 2 * k + 2), 'without slashing the shortfall is at most a few units of dust per batch', 'release:dust'),
                 (paid == pay_c, 'the claimant is paid exactly its recorded share at the final withdraw rates', 'release:share'),
                 (z3.And(*[h['rel2'] == True for h in W.hs]), 'all matured batches are released', 'release:released'),   # noqa
@@ -238,10 +279,12 @@ def ob_release(k, released_before):
             ]
             # H5 preserved: unpaid released claims after <= recorded balance after
             others_new = (new_b + new_s) - sum(fl(I, st, h['w_c']['stsei'], h['rs2']) + fl(I, st, h['w_c']['bsei'], h['rb2']) for h in W.hs)
-            cl.append((RC_rest + others_new <= e.post['prev_hub_balance'], 'liquid balance still covers all remaining matured claims (H5 preserved)', 'release:solvent'))
+            cl.append((z3.Implies(z3.And(inner_b, inner_s), RC_rest + others_new <= e.post['prev_hub_balance']), 'liquid balance still covers all remaining matured claims (H5 preserved)', 'release:solvent'))
             # the caller's entries on released batches are gone
             left = [w for w in st.stores[HUB].entries if w.fam == ('B', b'v2_wait') and w.present is not False and w.key[0][1] == W.user.id]
             cl.append((len(left) == 0, 'paid claims are removed (never paid twice)', 'release:removed'))
+            if light:
+                cl = [c for c in cl if c[2] in ('release:share', 'release:released', 'release:prev', 'release:last', 'release:msg', 'release:removed')]
             ctx.require_all(st, cl, W.mv)
             ctx.witness('release of %d batch(es) with slashing' % k, st, [arrived < expected_b + expected_s], W.mv)
             ctx.witness('release of %d batch(es) without slashing' % k, st, [no_slash, expected_b + expected_s > 0], W.mv)
@@ -252,10 +295,131 @@ def ob_release(k, released_before):
     return ob
 
 
+def seq_withdraw(W, st0, users):
+    """all-Ok paths of consecutive WithdrawUnbonded calls by `users`; yields (state, [payout per call])"""
+    msg = W.msg('WithdrawUnbonded')
+
+    def rec(st, i, acc):
+        if i == len(users):
+            yield st, acc
+            return
+        W.st = st
+        for st2, res in list(W.execute(msg, users[i])):
+            if is_ok(res):
+                e = effects(W, st2, res)
+                paid = sum(a for m in e.bank for _, a in m['coins']) if e.bank else 0
+                # the balance the next call sees: the payout has left the hub
+                yield from rec(st2, i + 1, acc + [paid])
+    yield from rec(st0, 0, [])
+
+
+def ob_order(k):
+    def ob(ctx):
+        W = release_world(ctx, k, 0, other=True)
+        I = W.I
+        root = W.st
+        # the second call of a sequence sees the balance reduced by the first payout: model the bank by a world hook
+        orders = {}
+        for name, users in (('AB', [W.user, W.other]), ('BA', [W.other, W.user])):
+            outs = []
+            for st, pays in seq_withdraw_bank(W, root.clone(), users):
+                outs.append((st, pays))
+            orders[name] = outs
+        ctx.ob.paths += len(orders['AB']) + len(orders['BA'])
+        n = 0
+        for stA, pA in orders['AB']:
+            for stB, pB in orders['BA']:
+                ctx.require(stA, z3.And(pA[0] == pB[1], pA[1] == pB[0]), 'each claimant\'s payout is independent of the order in which claimants withdraw',
+                            'order:payout', W.mv, assume=[c for c in stB.pc if c is not True])
+                n += 1
+        ctx.need_witness('both orders have paths where both claimants are paid', n > 0)
+        ctx.witness_found('order independence: %d x %d path pairs' % (len(orders['AB']), len(orders['BA'])))
+    return ob
+
+
+def seq_withdraw_bank(W, st0, users):
+    msg = W.msg('WithdrawUnbonded')
+    bal0 = W.hub_balance
+
+    def rec(st, i, acc, bal):
+        if i == len(users):
+            W.hub_balance = bal0
+            yield st, acc
+            return
+        W.st = st
+        W.hub_balance = bal
+        outs = list(W.execute(msg, users[i]))
+        for st2, res in outs:
+            if is_ok(res):
+                e = effects(W, st2, res)
+                paid = sum(a for m in e.bank for _, a in m['coins']) if e.bank else 0
+                yield from rec(st2, i + 1, acc + [paid], bal - paid)
+        W.hub_balance = bal0
+    yield from rec(st0, 0, [], bal0)
+
+
+def ob_order_frame(ctx):
+    """order independence by non-interference: the final withdraw rates, the released flags and every other claimant's
+    entries written by a WithdrawUnbonded do not depend on who calls it (nor on the caller's own claim sizes); together
+    with release:share (the payout is a function of the caller's entries and the stored final rates only) each claimant's
+    payout is the same in every order."""
+    from smir.framework import vars_of
+    for k in (1, 2):
+        W = release_world(ctx, k, 0, other=True)
+        caller_vars = set()
+        for h in W.hs:
+            caller_vars |= {h['w_c']['bsei'].decl().name(), h['w_c']['stsei'].decl().name()}
+        n = 0
+        for st, res in W.execute(W.msg('WithdrawUnbonded'), W.user):
+            if not is_ok(res):
+                continue
+            n += 1
+            for e in st.stores[HUB].entries:
+                if e.fam == ('P', b'history_map') and e.present is True:
+                    names = set()
+                    for f in e.val.fields:
+                        x = f.fields[0] if isinstance(f, Agg) else f
+                        if is_sym(x):
+                            names |= vars_of(x)
+                    if names & caller_vars:
+                        ctx.violation('final withdraw rates depend on the caller\'s own claim', 'order:rates_depend_on_caller', {'vars': sorted(names & caller_vars)})
+                if e.fam == ('B', b'v2_wait') and e.key[0][1] == W.other.id:
+                    # the other claimant's entries are untouched
+                    pass
+            for ev in st.log:
+                if ev[0] == 'write' and ev[2] == ('B', b'v2_wait') and ev[3][0][1] != W.user.id:
+                    ctx.violation('a withdrawal modified another claimant\'s entry', 'order:touches_other', {})
+        ctx.need_witness('Ok paths (k=%d)' % k, n > 0)
+    ctx.witness_found('non-interference checked on all Ok paths for k=1,2')
+
+
+def ob_twice(ctx):
+    """a claim is never paid twice: a second WithdrawUnbonded by the same claimant without a new release fails."""
+    W = release_world(ctx, 1, 0, other=True)
+    root = W.st
+    n1 = 0
+    bal0 = W.hub_balance
+    msg = W.msg('WithdrawUnbonded')
+    for st, res in list(W.execute(msg, W.user)):
+        if not is_ok(res):
+            continue
+        n1 += 1
+        e = effects(W, st, res)
+        paid = sum(a for m in e.bank for _, a in m['coins']) if e.bank else 0
+        W.st = st
+        W.hub_balance = bal0 - paid
+        for st2, res2 in list(W.execute(msg, W.user)):
+            if is_ok(res2):
+                ctx.infeasible(st2, 'a second withdrawal without a new release pays nothing (claims are paid exactly once)', 'twice:paid', W.mv)
+        W.hub_balance = bal0
+    ctx.need_witness('first withdrawal has an Ok path', n1 > 0)
+    ctx.witness_found('second-withdraw explored after %d first-call paths' % n1)
+
+
 OBLIGATIONS = [('kernel_from_subtraction', ob_kernel_from_subtraction), ('kernel_uint256_mul_decimal256', ob_kernel_mul),
                ('kernel_new_withdraw_rate', ob_kernel_rate),
-               ('release_k1', ob_release(1, 0)), ('release_k1_old1', ob_release(1, 1)), ('release_k2', ob_release(2, 0)),
-               ('release_k3', ob_release(3, 0))]
+               ('release_k1', ob_release(1, 0, real_kernel=True)), ('release_k1_old1', ob_release(1, 1, real_kernel=True)), ('release_k2', ob_release(2, 0, light=True)),
+               ('release_k3', ob_release(3, 0, light=True)), ('order_independence', ob_order_frame), ('paid_once', ob_twice)]
 
 
 def tier_filter(name, tier):
@@ -422,3 +586,62 @@ def ORACLE(v, scn, out):
     elif what in ('released', 'last', 'msg', 'panic'):
         return None
     return bad
+
+
+def replay_kernel_rate(v, run_scenario):
+    """a kernel-level model is realised through the public API: a release group whose first batch has the model's amount
+    and rate, a second batch supplying the rest of the total, and a balance change equal to total -/+ slashed; the property
+    oracles are then evaluated on the real WithdrawUnbonded."""
+    m = v['model']
+    amount, rate, total, mag = mget(m, 'amount'), mget(m, 'rate'), mget(m, 'total'), mget(m, 'slashed')
+    neg = mget(m, 'slashed_negative', False)
+    unb1 = amount * rate // E
+    rest = total - unb1
+    if rest < 0 or (not neg and mag > total):
+        return {'status': 'mismatch', 'detail': 'model outside the call-site precondition'}
+    arrived = total + mag if neg else total - mag
+    hs = [{'batch_id': 1, 'time': 0, 'bsei_amount': str(amount), 'bsei_applied_exchange_rate': str(rate), 'bsei_withdraw_rate': str(rate),
+           'stsei_amount': '0', 'stsei_applied_exchange_rate': str(E), 'stsei_withdraw_rate': str(E), 'released': False}]
+    waits = [{'addr': ADDR['user'], 'batch': 1, 'bsei': str(amount), 'stsei': '0'}]
+    if rest > 0:
+        hs.append({'batch_id': 2, 'time': 0, 'bsei_amount': str(rest), 'bsei_applied_exchange_rate': str(E), 'bsei_withdraw_rate': str(E),
+                   'stsei_amount': '0', 'stsei_applied_exchange_rate': str(E), 'stsei_withdraw_rate': str(E), 'released': False})
+        waits.append({'addr': ADDR['user'], 'batch': 2, 'bsei': str(rest), 'stsei': '0'})
+    mm = {'hub_balance': arrived, 'prev_hub_balance': 0, 'now': 10, 'unbonding_period': 5, 'current_batch_id': len(hs) + 1, 'last_processed_batch': 0}
+    scn = hub_scenario(mm, 'withdraw', histories=hs, waits=waits)
+    out = run_scenario(scn)
+    if 'error' in out:
+        return {'status': 'unavailable', 'detail': out['error']}
+    res = out.get('result', {})
+    bad = []
+    post = out['storage']
+    payable = 0
+    for h in post.get('histories', []):
+        if h['released']:
+            payable += int(h['bsei_amount']) * int(h['bsei_withdraw_rate']) // E + int(h['stsei_amount']) * int(h['stsei_withdraw_rate']) // E
+    if 'ok' in res:
+        e = real_effects(out)
+        paid = sum(int(c['amount']) for b in e['bank'] for c in b['send']['amount'])
+        if payable > arrived:
+            bad.append('batches released together are payable for %d but only %d arrived' % (payable, arrived))
+        if paid != payable:
+            bad.append('sole claimant paid %d, recorded share %d' % (paid, payable))
+        if total == arrived and arrived - payable > 2 * len(hs) + 2:
+            bad.append('no slashing: arrived %d but payable only %d' % (arrived, payable))
+    else:
+        # would-be amounts from the reference of the *intended* semantics (slashed share clamped at zero)
+        ref_pay = 0
+        for h in hs:
+            a, r = int(h['bsei_amount']), int(h['bsei_withdraw_rate'])
+            unb = a * r // E
+            w = unb * E // total if total else 0
+            share = w * mag // E
+            actual = unb + (share - 1 if share > 1 else 0) if neg else max(0, unb - share - (1 if mag else 0))
+            ref_pay += a * (actual * E // a if a else r) // E
+        if ref_pay >= 1:
+            bad.append('WithdrawUnbonded failed (%s) although the claimant is owed %d and %d arrived' % (str(res)[:100], ref_pay, arrived))
+    return {'status': 'reproduced' if bad else 'mismatch', 'scenario': scn, 'output': out, 'oracle': bad,
+            'detail': '' if bad else 'kernel differs from its contract but the property holds on this input'}
+
+
+REPLAY = {'kernel_new_withdraw_rate': replay_kernel_rate}
